@@ -172,7 +172,7 @@ pub fn verify_trace(rec: &CallRec, toks: &mut Toks, arith: bool, out: &mut Vec<V
     }
     let ntrans = info["ntrans"].as_u64().unwrap() as usize;
     let tids: Vec<u64> = rec.merlin.iter().filter_map(|e| if let Ev::TNew { tid, .. } = e { Some(*tid) } else { None }).take(ntrans).collect();
-    out.push(json!({"ev": "VCall", "mode": info["mode"], "np": np, "tids": tids, "nstmts": info["nstmts"], "nproofs": info["nproofs"],
+    out.push(json!({"ev": "VCall", "mode": info["mode"], "np": np, "tids": tids, "pair": info["pair"], "first": info["first"], "wdiff": info["wdiff"], "nstmts": info["nstmts"], "nproofs": info["nproofs"],
         "ntrans": info["ntrans"], "result": info["result"], "members": mv}));
     // --- transcript / RNG events, in the order they happened
     merlin_events(&rec.merlin, toks, out);
@@ -229,6 +229,11 @@ pub fn verify_trace(rec: &CallRec, toks: &mut Toks, arith: bool, out: &mut Vec<V
         } else {
             out.push(json!({"ev": "VSkip", "why": "a point occurs in more than one role"}));
         }
+    } else if mixed.len() == 1 {
+        // token mode: only the verdict-relevant part of the final check
+        let ev = mixed[0];
+        out.push(json!({"ev": "VMSM", "nstat": ev.stat.len(), "ntable": ev.table.len(), "ndyn_s": ev.dyn_s.len(), "ndyn_p": ev.dyn_p.len(),
+            "stat": [], "per": [], "oH": [], "oG": [], "extras": 0, "out_zero": ev.out.is_zero()}));
     } else {
         out.push(json!({"ev": "VNoMSM", "count": mixed.len(), "decompress_failures": ndec_fail}));
     }
@@ -251,4 +256,155 @@ pub fn inverses_for(evs: &[Ev]) -> HashMap<u64, Vec<Value>> {
         }
     }
     m
+}
+
+// ---------------------------------------------------------------------------------------------------
+// prover traces
+// ---------------------------------------------------------------------------------------------------
+
+/// Reference seed-nonce derivation (Nonce.tla): Blake2b-512 keyed MAC, key = 0x00 || seed || ['j' || LE32(j)] || ['k' || LE32(k)],
+/// persona = label, empty salt and message, output reduced mod l.
+pub fn ref_nonce(seed: &Scalar, label: &str, j: Option<u32>, k: Option<u32>) -> Scalar {
+    use blake2::Blake2bMac512;
+    use digest::FixedOutput;
+    let mut key = vec![0u8];
+    key.extend_from_slice(seed.as_bytes());
+    if let Some(j) = j {
+        key.push(b'j');
+        key.extend_from_slice(&j.to_le_bytes());
+    }
+    if let Some(k) = k {
+        key.push(b'k');
+        key.extend_from_slice(&k.to_le_bytes());
+    }
+    let h = Blake2bMac512::new_with_salt_and_personal(&key, &[], label.as_bytes()).expect("blake2b parameters");
+    let mut out = [0u8; 64];
+    out.copy_from_slice(h.finalize_fixed().as_slice());
+    Scalar::from_bytes_mod_order_wide(&out)
+}
+
+pub struct ProverInputs<'a> {
+    pub n: usize,
+    pub t: usize,
+    pub m: usize,
+    pub cap: usize,
+    pub vals: &'a [u64],
+    pub proms: &'a [Option<u64>],
+    pub blinds: &'a [Vec<Scalar>],
+    pub commitments: Vec<[u8; 32]>,
+    pub h: [u8; 32],
+    pub g: Vec<[u8; 32]>,
+    pub h_sym: u32,
+    pub g_syms: Vec<u32>,
+    pub seed: Option<Scalar>,
+}
+
+/// coordinates of a point over the generator symbols, by role; `other` counts coordinates on anything else
+fn coords(p: &FP, inp: &ProverInputs, roles: &HashMap<u32, (u8, u32, u32)>, nm: usize) -> Value {
+    let mut gi = vec![Scalar::ZERO; nm];
+    let mut hi = vec![Scalar::ZERO; nm];
+    let mut g = vec![Scalar::ZERO; inp.t];
+    let mut h = Scalar::ZERO;
+    let mut other = 0;
+    for (id, v) in &p.0 {
+        if *v == Scalar::ZERO {
+            continue;
+        }
+        if *id == inp.h_sym {
+            h = *v;
+        } else if let Some(k) = inp.g_syms.iter().position(|s| s == id) {
+            g[k] = *v;
+        } else if let Some((kind, party, i)) = roles.get(id) {
+            let x = (*party as usize) * inp.n + (*i as usize);
+            if (*i as usize) < inp.n && x < nm {
+                if *kind == b'G' {
+                    gi[x] = *v;
+                } else {
+                    hi[x] = *v;
+                }
+            } else {
+                other += 1;
+            }
+        } else {
+            other += 1;
+        }
+    }
+    json!({"H": sl(&h), "G": g.iter().map(sl).collect::<Vec<_>>(), "Gi": gi.iter().map(sl).collect::<Vec<_>>(),
+        "Hi": hi.iter().map(sl).collect::<Vec<_>>(), "other": other})
+}
+
+pub fn prove_trace(rec: &CallRec, inp: &ProverInputs, toks: &mut Toks, arith: bool, out: &mut Vec<Value>) {
+    use tari_bulletproofs_plus::traits::{Decompressable, FixedBytesRepr};
+    let info = &rec.info;
+    let bytes: Vec<u8> = info["bytes"].as_array().unwrap().iter().map(|x| x.as_u64().unwrap() as u8).collect();
+    let pp = parse_proof(&bytes);
+    let nm = inp.n * inp.m;
+    let roles = refgens::fm_roles(64, 64);
+    let pt = |b: [u8; 32]| -> FP { fm::CFP::from_fixed_bytes(b).decompress().expect("prover output decodes") };
+    // the serialised witness exactly as the protocol defines it: v_j LE64 || r_j,k
+    let mut wbytes = vec![];
+    for j in 0..inp.m {
+        wbytes.extend_from_slice(&inp.vals[j].to_le_bytes());
+        for r in &inp.blinds[j] {
+            wbytes.extend_from_slice(r.as_bytes());
+        }
+    }
+    let tid: Vec<u64> = rec.merlin.iter().filter_map(|e| if let Ev::TNew { tid, .. } = e { Some(*tid) } else { None }).take(1).collect();
+    let mut call = json!({
+        "ev": "PCall", "n": inp.n, "m": inp.m, "t": inp.t, "cap": inp.cap, "k": pp.k, "nm": nm, "seeded": inp.seed.is_some(),
+        "tid": tid.first().copied().unwrap_or(0),
+        "vals": inp.vals.iter().map(|v| u64_limbs16(&v.to_le_bytes())).collect::<Vec<_>>(),
+        "proms": inp.proms.iter().map(|p| p.map(|v| u64_limbs16(&v.to_le_bytes())).unwrap_or(json!([]))).collect::<Vec<_>>(),
+        "prom64": inp.proms.iter().map(|p| u64_limbs16(&p.unwrap_or(0).to_le_bytes())).collect::<Vec<_>>(),
+        "prom": inp.proms.iter().map(|p| sl(&Scalar::from(p.unwrap_or(0)))).collect::<Vec<_>>(),
+        "rb": inp.blinds.iter().map(|r| r.iter().map(sl).collect::<Vec<_>>()).collect::<Vec<_>>(),
+        "wtok": toks.tok(&wbytes), "wlen": wbytes.len(),
+        "r1": bl(&pp.r1()), "s1": bl(&pp.s1()), "d1": (0..pp.t).map(|k| bl(&pp.d1(k))).collect::<Vec<_>>(),
+        "tag": pp.t,
+        "tok": {
+            "H": toks.tok(&inp.h), "G": inp.g.iter().map(|g| toks.tok(g)).collect::<Vec<_>>(),
+            "C": inp.commitments.iter().map(|c| toks.tok(c)).collect::<Vec<_>>(),
+            "A": toks.tok(&pp.a()), "A1": toks.tok(&pp.a1()), "B": toks.tok(&pp.b()),
+            "L": (0..pp.k).map(|j| toks.tok(&pp.l(j))).collect::<Vec<_>>(),
+            "R": (0..pp.k).map(|j| toks.tok(&pp.r(j))).collect::<Vec<_>>(),
+            "r1": toks.tok(&pp.r1()), "s1": toks.tok(&pp.s1()), "d1": (0..pp.t).map(|k| toks.tok(&pp.d1(k))).collect::<Vec<_>>(),
+        },
+    });
+    if arith {
+        call["A"] = coords(&pt(pp.a()), inp, &roles, nm);
+        call["A1"] = coords(&pt(pp.a1()), inp, &roles, nm);
+        call["B"] = coords(&pt(pp.b()), inp, &roles, nm);
+        call["Ls"] = json!((0..pp.k).map(|j| coords(&pt(pp.l(j)), inp, &roles, nm)).collect::<Vec<_>>());
+        call["Rs"] = json!((0..pp.k).map(|j| coords(&pt(pp.r(j)), inp, &roles, nm)).collect::<Vec<_>>());
+    } else {
+        for f in ["A", "A1", "B"] {
+            call[f] = json!({});
+        }
+        call["Ls"] = json!([]);
+        call["Rs"] = json!([]);
+    }
+    // reference seed nonces (Nonce.tla layout), only when the statement carries a seed
+    call["nref"] = match &inp.seed {
+        Some(s) => json!({
+            "alpha": (0..inp.t).map(|k| sl(&ref_nonce(s, "alpha", None, Some(k as u32)))).collect::<Vec<_>>(),
+            "dL": (0..pp.k).map(|j| (0..inp.t).map(|k| sl(&ref_nonce(s, "dL", Some(j as u32), Some(k as u32)))).collect::<Vec<_>>()).collect::<Vec<_>>(),
+            "dR": (0..pp.k).map(|j| (0..inp.t).map(|k| sl(&ref_nonce(s, "dR", Some(j as u32), Some(k as u32)))).collect::<Vec<_>>()).collect::<Vec<_>>(),
+            "d": (0..inp.t).map(|k| sl(&ref_nonce(s, "d", None, Some(k as u32)))).collect::<Vec<_>>(),
+            "eta": (0..inp.t).map(|k| sl(&ref_nonce(s, "eta", None, Some(k as u32)))).collect::<Vec<_>>(),
+        }),
+        None => json!({"alpha": [], "dL": [], "dR": [], "d": [], "eta": []}),
+    };
+    call["arith"] = json!(arith);
+    out.push(call);
+    merlin_events(&rec.merlin, toks, out);
+    // the precomputed MSM that produced A: static scalars by table role, as the prover handed them over
+    let mixed: Vec<&MixedEvent> = rec.group.iter().filter_map(|g| if let GEv::Mixed(m) = g { Some(m) } else { None }).collect();
+    let amsm = match mixed.first() {
+        Some(ev) => json!({"ev": "PMSM", "count": mixed.len(), "nstat": ev.stat.len(), "ntable": ev.table.len(),
+            "stat": ev.table.iter().zip(ev.stat.iter()).map(|(p, s)| { let r = table_role(p, &roles); json!([r[0], r[1], r[2], sl(s)]) }).collect::<Vec<_>>(),
+            "ndyn_s": ev.dyn_s.len(), "ndyn_p": ev.dyn_p.len()}),
+        None => json!({"ev": "PMSM", "count": 0, "nstat": 0, "ntable": 0, "stat": [], "ndyn_s": 0, "ndyn_p": 0}),
+    };
+    out.push(amsm);
+    out.push(json!({"ev": "PRet"}));
 }
